@@ -160,7 +160,7 @@ def t_dispatch(host='HsmEventProcessor'):
         c.prove('dispatch:post/no-action-unless-transition',
                 z3.Implies(z3.Not(tran), z3.And(g['g_n_ex'] == 0, g['g_n_en'] == 0, g['g_n_in'] == 0, new == cur)),
                 tags=('C02',))
-        c.prove('dispatch:post/ignored-flag', c.hget(ev, 'ignored') == (g['g_answer'] == 3), tags=('C02',))
+        c.prove('dispatch:post/ignored-flag', c.hget(ev, 'ignored') == (g['g_answer'] == 3), tags=('C02', 'C20'))
         c.prove('dispatch:post/temp-settled', z3.And(H.temp_fun(it, self) == new, is_state(new)),
                 tags=('C01', 'C02', 'C23', 'idle'))
         c.prove('dispatch:post/state_name', c.hget(self, 'state_name') == name_of(new), tags=('C23',))
